@@ -14,6 +14,7 @@ import (
 	"time"
 
 	"github.com/relab/gorums"
+	"github.com/relab/gorums/tests/dummy"
 	"pgregory.net/rapid"
 
 	"verif/puppet"
@@ -331,6 +332,22 @@ func Run(c Case, h Hooks) Result {
 				case op.Kind == "register":
 					// a handler registered while the server is running (nothing is arriving meanwhile)
 					cl.RegisterLate(op.Call.Node % c.N)
+				case op.Kind == "unknown":
+					// a request for a method that is in the registry of the process but for which this
+					// server has no handler (version skew, partial implementation): nobody answers it; its
+					// context lives until the end of the case, so it never resets the stream
+					client := clients[op.Mgr%len(clients)]
+					s := op.Call.Node % c.N
+					node := client.Node(s)
+					uctx, ucancel := context.WithCancel(context.Background())
+					floodMu.Lock()
+					floodCancels = append(floodCancels, ucancel)
+					floodMu.Unlock()
+					cl.Log.Add(scen.Event{Kind: "unknown-method", Call: -1, Server: s, Note: "dummy.Dummy.Test"})
+					go func() {
+						_, _ = node.RPCCall(uctx, gorums.CallData{Message: &dummy.Empty{}, Method: "dummy.Dummy.Test"})
+					}()
+					time.Sleep(300 * time.Microsecond)
 				case op.Kind == "cut":
 					// the connections to a server break underneath it (it keeps listening)
 					cl.Cut(op.Call.Node % c.N)
